@@ -2,6 +2,8 @@
 mod rng;
 mod sim;
 mod vclock;
+mod m_c11;
+mod m_c12;
 mod m_c13;
 mod m_c20;
 mod m_run;
@@ -59,6 +61,8 @@ fn main() {
     let mut out = Out { w: std::io::BufWriter::new(std::io::stdout()), n: 0 };
     match mode.as_str() {
         "c13" => m_c13::run(&args, &mut out),
+        "c12" => m_c12::run(&args, &mut out),
+        "c11" => m_c11::run(&args, &mut out),
         "run" => m_run::run(&args, &mut out),
         "state" => m_state::run(&args, &mut out),
         "c20" => m_c20::run(&args, &mut out),
